@@ -281,6 +281,23 @@ def pool():
     return _pool
 
 
+def kill_pool():
+    """terminate the worker processes (they inherit stdout; a caller waiting for EOF would hang otherwise)"""
+    global _pool
+    if _pool is None:
+        return
+    try:
+        procs = list(getattr(_pool, "_processes", {}).values())
+        for p_ in procs:
+            try:
+                p_.kill()
+            except Exception:
+                pass
+    except Exception:
+        pass
+    _pool = None
+
+
 def find_cofactors_multi(goals, hyps, budget=6.0):
     """For each goal search c != 0 (mod p) and integer-coefficient q_i with  c*goal = sum q_i*hyps_i.
     Untrusted (tracked Buchberger in gbcert.py, run in a worker process): the caller re-checks every
